@@ -620,3 +620,4 @@ CHECKS['C16'].update(text=CHECKS['C16']['text'] + ' TB14 also evaluates digit ta
 CHECKS['C17'].update(text=CHECKS['C17']['text'] + ' NC1: a pointer parameter that a parser function compares with NULL somewhere is dereferenced only on '
                      'paths that passed the non-NULL outcome of such a test (per-path branch facts plus equality facts on discriminator fields '
                      'such as cbdata->otype, killed by assignments and by callees that may write them).')
+CHECKS['C11'].update(text=CHECKS['C11']['text'] + ' NC1 (NULL-tested pointer parameters dereferenced only behind the test) over the container units, as under C17.')
